@@ -731,10 +731,10 @@ pub fn gen(mode: Mode, seed: u64, n: usize, path: &str, _tier: &str) -> std::io:
             if oncl {
                 tags.push("oncl");
             }
-            let wrap = if r.chance(1, 3) { r.range(1, 5) } else { 0 };
+            let wrap = if r.chance(1, 3) { r.range(1, 6) } else { 0 };
             match wrap {
                 3 => tags.push("mapped"),
-                4 | 5 => tags.push("maybe"),
+                4 | 5 | 6 => tags.push("maybe"),
                 _ => {}
             }
             writeln!(f, "case {i}:{}", tags.join(","))?;
@@ -754,7 +754,7 @@ pub fn gen(mode: Mode, seed: u64, n: usize, path: &str, _tier: &str) -> std::io:
             continue;
         }
         // the wrapper families matter most for untracked reads through every accessor
-        let wrap = if r.chance(2, 5) { r.range(1, 5) } else { 0 };
+        let wrap = if r.chance(2, 5) { r.range(1, 6) } else { 0 };
         let acc = if wrap >= 3 && acc.is_none() && r.chance(2, 3) { Some(r.below(60)) } else { acc };
         let mut p = gen_prog_with(&mut r, mode, acc.is_some() || wrap >= 3);
         // a memo nobody reads, evaluated first and dropped later: a dead entry ahead of the live subscribers
@@ -830,6 +830,9 @@ pub fn gen(mode: Mode, seed: u64, n: usize, path: &str, _tier: &str) -> std::io:
         let mut ops = vec![];
         let mut cur: Vec<i64> = p.defs.iter().map(|d| if let Def::Sig(v) = d { *v } else { 0 }).collect();
         let mut eqwrite = false;
+        // untracked writes followed by an explicit notify()
+        let setun_case = r.chance(1, 3);
+        let mut setun = false;
         let drop_at = r.range(1, len / 2 + 1);
         if let Some(m) = dropm {
             ops.push(format!("read {m}"));
@@ -865,7 +868,12 @@ pub fn gen(mode: Mode, seed: u64, n: usize, path: &str, _tier: &str) -> std::io:
                     eqwrite = true;
                 }
                 cur[s] = v;
-                ops.push(format!("set {s} {v}"));
+                if setun_case && r.chance(1, 2) {
+                    setun = true;
+                    ops.push(format!("setun {s} {v}"));
+                } else {
+                    ops.push(format!("set {s} {v}"));
+                }
                 // a coarse memo is interesting right after a write that may stay inside its bucket
                 if !leaves.is_empty() && r.chance(1, 2) {
                     ops.push(format!("read {}", *r.pick(&leaves)));
@@ -887,12 +895,20 @@ pub fn gen(mode: Mode, seed: u64, n: usize, path: &str, _tier: &str) -> std::io:
         }
         match wrap {
             3 => tags.push("mapped"),
-            4 | 5 => tags.push("maybe"),
+            4 | 5 | 6 => tags.push("maybe"),
             _ => {}
         }
         let oncl = has_eff && r.chance(1, 3);
         if oncl {
             tags.push("oncl");
+        }
+        // cleanup callbacks that read a signal
+        let onclr: Option<usize> = if oncl && r.chance(1, 2) { Some(*r.pick(&sigs)) } else { None };
+        if onclr.is_some() {
+            tags.push("onclr");
+        }
+        if setun {
+            tags.push("setun");
         }
         writeln!(f, "case {i}:{}", tags.join(","))?;
         writeln!(f, "mode {}", if arena { "arena" } else { "arc" })?;
@@ -906,6 +922,9 @@ pub fn gen(mode: Mode, seed: u64, n: usize, path: &str, _tier: &str) -> std::io:
             writeln!(f, "oncl")?;
         }
         write_prog(&mut f, &p)?;
+        if let Some(sg) = onclr {
+            writeln!(f, "onclr {sg}")?;
+        }
         for o in ops {
             writeln!(f, "{o}")?;
         }
